@@ -2,7 +2,8 @@
 // of /repo/rolling-shutter (nothing is written into /repo):
 //
 //	-maporder pkg,pkg   every `range` over a map becomes a loop over
-//	                    maporder.Keys(m) (explorer-owned iteration order)
+//	                    maporder.Keys(m) (explorer-owned iteration order), in these
+//	                    packages and in every package of the module they import
 //	-vos file,file      the file's "os" import is pointed at verif/shim/vos
 //	-yield pkg,pkg      a call of sched.Yield() is inserted before every statement
 //	                    of the package (scheduling points of the cooperative
@@ -40,6 +41,7 @@ func main() {
 	mo := flag.String("maporder", "", "comma separated package paths relative to the module")
 	vosFiles := flag.String("vos", "", "comma separated files relative to the module")
 	yi := flag.String("yield", "", "comma separated package paths relative to the module")
+	moDeps := flag.Bool("maporder-deps", true, "also rewrite the map ranges of every package of the module that the -maporder packages import (directly or not)")
 	out := flag.String("out", "/verif/.gen/overlay", "output directory")
 	repo := flag.String("repo", "/repo/rolling-shutter", "module root")
 	flag.Parse()
@@ -74,6 +76,36 @@ func main() {
 		pkgs, err := packages.Load(cfg, pats...)
 		if err != nil {
 			die(err)
+		}
+		if *moDeps {
+			// the -maporder packages and everything of this module below them
+			seen := map[string]bool{}
+			var all []*packages.Package
+			var walk func(p *packages.Package)
+			walk = func(p *packages.Package) {
+				if seen[p.PkgPath] || !strings.HasPrefix(p.PkgPath, repoMod) {
+					return
+				}
+				seen[p.PkgPath] = true
+				all = append(all, p)
+				for _, q := range p.Imports {
+					walk(q)
+				}
+			}
+			for _, p := range pkgs {
+				if moSet[p.PkgPath] {
+					walk(p)
+				}
+			}
+			for _, p := range all {
+				moSet[p.PkgPath] = true
+			}
+			for _, p := range pkgs {
+				if !seen[p.PkgPath] {
+					all = append(all, p)
+				}
+			}
+			pkgs = all
 		}
 		for _, pkg := range pkgs {
 			if len(pkg.Errors) > 0 {
